@@ -31,6 +31,13 @@ pub enum Op {
     RoomMutation(usize),
     /// rows created on the other peer (room, entity, day) then pulled; cut after n answers (0 = complete)
     Pull(usize, usize, usize, usize),
+    /// one mutation creating a P together with a nested q and one nested qs element: room, day
+    NestedCreate(usize, usize),
+    /// a P created on day 0 with a nested child through field `q` (0) or `qs` (1); at day index the child alone
+    /// is changed through its unchanged owner: room, field, day
+    NestedUpdate(usize, usize, usize),
+    /// a new child is attached (through `qs`) to an otherwise unchanged owner created on day 0: room, day
+    NestedAttach(usize, usize),
 }
 
 const ENTS: [&str; 2] = ["ns.P", "ns.Q"];
@@ -55,6 +62,10 @@ pub fn alphabet() -> Vec<Op> {
     a.push(Op::RoomMutation(0));
     a.push(Op::Pull(0, 0, 1, 0));
     a.push(Op::Pull(1, 1, 0, 0));
+    a.push(Op::NestedCreate(0, 1));
+    a.push(Op::NestedUpdate(0, 0, 1));
+    a.push(Op::NestedUpdate(1, 1, 0));
+    a.push(Op::NestedAttach(0, 1));
     a
 }
 
@@ -142,7 +153,7 @@ impl W18 {
     }
 
     /// unmeasured preparation of an operation (target rows, rows on the other peer)
-    async fn prepare(&mut self, op: &Op) -> Result<Option<Uid>, String> {
+    async fn prepare(&mut self, op: &Op) -> Result<Vec<Uid>, String> {
         self.serial += 1;
         match op {
             Op::Update(r, e, _) | Op::Delete(r, e, _) => {
@@ -155,7 +166,28 @@ impl W18 {
                     )
                     .await
                     .map_err(|e| e.to_string())?;
-                Ok(Some(q.mutate_entities[0].node_to_mutate.id))
+                Ok(vec![q.mutate_entities[0].node_to_mutate.id])
+            }
+            Op::NestedUpdate(r, f, _) => {
+                set_clock(day_clock(0) - 5000 - self.serial as i64);
+                let text = if *f == 0 {
+                    "mutate { ns.P { room_id:$r name:\"owner\" q:{ name:\"child\" } } }"
+                } else {
+                    "mutate { ns.P { room_id:$r name:\"owner\" qs:[{ name:\"child\" }] } }"
+                };
+                let q = self.u.peers[0].db.mutate_raw(text, Some(params(&[("r", b64(&self.rooms[*r].id))]))).await.map_err(|e| e.to_string())?;
+                let top = &q.mutate_entities[0];
+                let child = top.sub_nodes.values().flat_map(|v| v.iter()).next().ok_or("no nested child in the prepared owner")?;
+                Ok(vec![top.node_to_mutate.id, child.node_to_mutate.id])
+            }
+            Op::NestedAttach(r, _) => {
+                set_clock(day_clock(0) - 5000 - self.serial as i64);
+                let q = self.u.peers[0]
+                    .db
+                    .mutate_raw("mutate { ns.P { room_id:$r name:\"owner\" } }", Some(params(&[("r", b64(&self.rooms[*r].id))])))
+                    .await
+                    .map_err(|e| e.to_string())?;
+                Ok(vec![q.mutate_entities[0].node_to_mutate.id])
             }
             Op::Pull(r, e, d, _) => {
                 set_clock(day_clock(*d) + self.serial as i64);
@@ -166,14 +198,14 @@ impl W18 {
                     )
                     .await?;
                 self.u.peers[1].barrier().await;
-                Ok(None)
+                Ok(vec![])
             }
-            _ => Ok(None),
+            _ => Ok(vec![]),
         }
     }
 
     /// the measured part; returns whether it was acknowledged
-    async fn exec(&self, op: &Op, target: Option<Uid>, serial: usize) -> Result<bool, String> {
+    async fn exec(&self, op: &Op, target: &[Uid], serial: usize) -> Result<bool, String> {
         let a = &self.u.peers[0];
         match op {
             Op::Create(r, e, d) => {
@@ -182,11 +214,11 @@ impl W18 {
             }
             Op::Update(_, e, d) => {
                 set_clock(day_clock(*d) + serial as i64);
-                Ok(a.mutate(&format!("mutate {{ {} {{ id:$id name:\"upd\" }} }}", ENTS[*e]), Some(params(&[("id", b64(&target.unwrap()))]))).await.is_ok())
+                Ok(a.mutate(&format!("mutate {{ {} {{ id:$id name:\"upd\" }} }}", ENTS[*e]), Some(params(&[("id", b64(&target[0]))]))).await.is_ok())
             }
             Op::Delete(_, e, d) => {
                 set_clock(day_clock(*d) + serial as i64);
-                Ok(a.delete(&format!("delete {{ {} {{ $id }} }}", ENTS[*e]), Some(params(&[("id", b64(&target.unwrap()))]))).await.is_ok())
+                Ok(a.delete(&format!("delete {{ {} {{ $id }} }}", ENTS[*e]), Some(params(&[("id", b64(&target[0]))]))).await.is_ok())
             }
             Op::Stream(r, e, d, k) => {
                 set_clock(day_clock(*d) + serial as i64);
@@ -211,6 +243,19 @@ impl W18 {
                 let ev = REvent::AddRight { group: 0, entity: "ns.Q".into(), own: true, all: serial % 2 == 0 };
                 let (text, p) = self.u.event_mutation(&self.rooms[*r], &ev);
                 Ok(a.mutate(&text, Some(p)).await.is_ok())
+            }
+            Op::NestedCreate(r, d) => {
+                set_clock(day_clock(*d) + serial as i64);
+                Ok(a.mutate("mutate { ns.P { room_id:$r name:\"new\" q:{ name:\"nq\" } qs:[{ name:\"nqs\" }] } }", Some(params(&[("r", b64(&self.rooms[*r].id))]))).await.is_ok())
+            }
+            Op::NestedUpdate(_, f, d) => {
+                set_clock(day_clock(*d) + serial as i64);
+                let text = if *f == 0 { "mutate { ns.P { id:$id q:{ id:$c name:\"upd\" } } }" } else { "mutate { ns.P { id:$id qs:[{ id:$c name:\"upd\" }] } }" };
+                Ok(a.mutate(text, Some(params(&[("id", b64(&target[0])), ("c", b64(&target[1]))]))).await.is_ok())
+            }
+            Op::NestedAttach(_, d) => {
+                set_clock(day_clock(*d) + serial as i64);
+                Ok(a.mutate("mutate { ns.P { id:$id qs:[{ name:\"attached\" }] } }", Some(params(&[("id", b64(&target[0]))]))).await.is_ok())
             }
             Op::Pull(r, _, _, cut) => {
                 set_clock(day_clock(1) + 5000 + serial as i64);
@@ -252,7 +297,7 @@ pub fn workloads(tier: Tier) -> Vec<Workload> {
         w.push(Workload::Seq(vec![Op::Create(0, 1, 0), Op::Pull(0, 0, 1, n)]));
     }
     if tier == Tier::Thorough {
-        let core: Vec<Op> = vec![Op::Create(0, 0, 0), Op::Create(0, 1, 1), Op::Update(0, 0, 1), Op::Delete(0, 0, 1), Op::Stream(1, 0, 0, 3), Op::RoomMutation(0), Op::Pull(0, 0, 1, 0)];
+        let core: Vec<Op> = vec![Op::Create(0, 0, 0), Op::Create(0, 1, 1), Op::Update(0, 0, 1), Op::Delete(0, 0, 1), Op::Stream(1, 0, 0, 3), Op::RoomMutation(0), Op::Pull(0, 0, 1, 0), Op::NestedUpdate(0, 0, 1), Op::NestedAttach(0, 1)];
         for o1 in &core {
             for o2 in &core {
                 for o3 in &core {
@@ -273,6 +318,9 @@ fn op_class(o: &Op) -> &'static str {
         Op::RoomMutation(..) => "room-mutation",
         Op::Pull(_, _, _, 0) => "pull",
         Op::Pull(..) => "pull-interrupted",
+        Op::NestedCreate(..) => "nested-create",
+        Op::NestedUpdate(..) => "nested-update",
+        Op::NestedAttach(..) => "nested-attach",
     }
 }
 
@@ -293,7 +341,7 @@ async fn run_workload(w: &mut W18, wl: &Workload, out: &mut Outcome, verbose: bo
     match wl {
         Workload::Seq(_) => {
             for (i, o) in ops.iter().enumerate() {
-                acked.push(w.exec(o, targets[i], base + i).await?);
+                acked.push(w.exec(o, &targets[i], base + i).await?);
                 out.transitions += 1;
             }
         }
@@ -302,8 +350,8 @@ async fn run_workload(w: &mut W18, wl: &Workload, out: &mut Outcome, verbose: bo
             verif_hooks::close_gate("writer.before_batch");
             let a = &w.u.peers[0];
             let dummy = a.raw_write(vec![]);
-            let f0 = w.exec(&ops[0], targets[0], base);
-            let f1 = w.exec(&ops[1], targets[1], base + 1);
+            let f0 = w.exec(&ops[0], &targets[0], base);
+            let f1 = w.exec(&ops[1], &targets[1], base + 1);
             let opener = async {
                 // wait until the writer thread is parked at the gate and both requests had time to queue
                 for _ in 0..2000 {
